@@ -8,25 +8,16 @@ import (
 
 func main() {
 	h := lib.NewHost()
-	h.CompGauge = nil
 	for _, src := range []string{
-		`access(all) fun main(): [Word8] { var r: [Word8] = []; for x in InclusiveRange<Word8>(250, 255) { r.append(x); if r.length > 20 { break } }; return r }`,
-		`access(all) fun main(): [UInt8] { var r: [UInt8] = []; for x in InclusiveRange<UInt8>(250, 255) { r.append(x) }; return r }`,
-		`access(all) fun main(): [UInt8] { var r: [UInt8] = []; for x in InclusiveRange<UInt8>(250, 254) { r.append(x) }; return r }`,
-		`access(all) fun main(): [Int] { var r: [Int] = []; for x in InclusiveRange<Int>(5, 1, step: -2) { r.append(x) }; return r }`,
-		`access(all) fun main(): Bool { return InclusiveRange(0, 10, step: 3).contains(10) }`,
-		`access(all) fun main(): Bool { return InclusiveRange<Int8>(-128, 127, step: 2).contains(126) }`,
-		`access(all) fun main(): Bool { return InclusiveRange<Word8>(3, 200, step: 2).contains(1) }`,
-		`access(all) fun main(): Bool { return InclusiveRange<UInt8>(10, 3, step: 2).contains(1) }`,
-		`access(all) fun main(): Bool { return InclusiveRange<Int8>(10, 3, step: -2).contains(4) }`,
-		`access(all) fun main(): Bool { return InclusiveRange<Int8>(10, 3, step: -2).contains(5) }`,
+		`access(all) fun main(): Int8 { let x: Fix128 = -1.5; return Int8(x) }`,
+		`access(all) fun main(): Fix64 { let x: Fix128 = -0.000000000000000000000001; return Fix64(x) }`,
+		`access(all) fun main(): UInt8 { let x: Fix128 = -0.000000000000000000000001; return UInt8(x) }`,
+		`access(all) fun main(): Int { let x: Fix128 = -2.0; return Int(x) }`,
+		`access(all) fun main(): Word8 { let x: Fix128 = -1.5; return Word8(x) }`,
 	} {
 		for _, vm := range []bool{false, true} {
 			o := h.RunScript(src, nil, vm)
-			fmt.Println(src[30:], "vm=", vm, "=>", o.Value, o.Class)
-			if o.Err != nil {
-				fmt.Println("   ", o.Err.Error()[:min(len(o.Err.Error()), 200)])
-			}
+			fmt.Println(src[24:], "vm=", vm, "=>", o.Value, o.Class)
 		}
 	}
 }
